@@ -30,6 +30,7 @@ from vf import yq
 from models import plain as P
 
 from yaql import yaql_interface
+from yaql.language import utils as yutils
 
 ID = 'C10'
 TITLE = 'round trip and finalisation into plain data'
@@ -298,12 +299,199 @@ def job_context_sequence(k, nchunks):
     return res
 
 
+# ---------------------------------------------------------------------------
+# (4) library functions called directly through the YaqlInterface stub: yi.name(...), yi.on(receiver).name(...)
+# ---------------------------------------------------------------------------
+# (receiver | None, function name, positional arguments, keyword arguments) - python source of host data,
+# rebuilt for every call; results are mappings, sets, sequences, iterators, views and scalars.
+STUB_CALLS = [
+    (None, 'dict', "([['a', [1, 2]], ['b', (3, {4})]],)", '{}'),
+    (None, 'list', "(1, (2, 3), [4, {'k': (5,)}])", '{}'),
+    (None, 'set', '(1, 2, 2)', '{}'),
+    (None, 'range', '(3,)', '{}'),
+    (None, 'len', '([1, 2],)', '{}'),
+    (None, 'str', '((1, 2),)', '{}'),
+    (None, 'distinct', '([1, (2, 3), 1, (2, 3)],)', '{}'),
+    (None, 'enumerate', "(['a', ('b',)],)", "{'start': 1}"),
+    (None, 'append', "([1], (2,), {'k': [3]})", '{}'),
+    (None, 'concat', '([1], (2, (3,)))', '{}'),
+    (None, 'isDict', "({'a': 1},)", '{}'),
+    (None, '#operator_+', "({'a': [1]}, {'b': (2, {3})})", '{}'),
+    (None, '#operator_+', '([1, (2,)], [(3, [4])])', '{}'),
+    (None, '#operator_+', '({1, 2}, {3})', '{}'),
+    (None, '#operator_-', '({1, 2}, {2})', '{}'),
+    (None, '#operator_*', '([1, (2,)], 2)', '{}'),
+    (None, '#list', "(1, (2, 3), {'k': {4}})", '{}'),
+    (None, '#indexer', '([(1, [2]), 3], 0)', '{}'),
+    (None, '#indexer', "({'k': (1, {2})}, 'k')", '{}'),
+    (None, '#indexer', "({'k': 1}, 'x', (7, [8]))", '{}'),
+    ("{'a': 1}", 'set', "('b', {2, 3})", '{}'),
+    ("{'a': 1}", 'set', "('b', [2, (3,)])", '{}'),
+    ("{'a': (1,)}", 'set', "({'c': (1, {2}), 'd': {'e': [3]}},)", '{}'),
+    ("{'a': (1, [2]), 'b': {3}}", 'keys', '()', '{}'),
+    ("{'a': (1, [2]), 'b': {3}}", 'values', '()', '{}'),
+    ("{'a': (1, [2]), 'b': {3}}", 'get', "('a',)", '{}'),
+    ("{'a': (1, [2]), 'b': {3}}", 'get', "('x', (0, {1}))", '{}'),
+    ("{'a': (1, [2]), 'b': {3}}", 'delete', "('b',)", '{}'),
+    ("{'a': (1, [2]), 'b': {3}}", 'deleteAll', "(['b'],)", '{}'),
+    ("{'a': (1, [2]), 'b': {'c': 1}}", 'mergeWith', "({'b': {'d': (2,)}, 'e': {4}},)", '{}'),
+    ("{'a': (1, [2])}", 'len', '()', '{}'),
+    ("{'a': (1, [2])}", 'containsKey', "('a',)", '{}'),
+    ('[3, (1, 2), [4]]', 'toList', '()', '{}'),
+    ('[3, 1, 3]', 'toSet', '()', '{}'),
+    ('[3, (1, 2), [4]]', 'reverse', '()', '{}'),
+    ('[3, (1, 2), [4]]', 'memorize', '()', '{}'),
+    ('[3, (1, 2), [4]]', 'enumerate', '()', '{}'),
+    ('[3, (1, 2), [4]]', 'zip', "(['a', ('b',)],)", '{}'),
+    ('[3, (1, 2), [4]]', 'insert', "(0, (9, {'k': [8]}))", '{}'),
+    ('(3, (1, 2), [4])', 'insert', '(1, {7})', '{}'),
+    ('[3, (1, 2), [4]]', 'flatten', '()', '{}'),
+    ('[3, (1, 2), [4]]', 'slice', '(2,)', '{}'),
+    ('[3, (1, 2), [4]]', 'splitAt', '(1,)', '{}'),
+    ('[3, (1, 2), [4]]', 'skip', '(1,)', '{}'),
+    ('[3, (1, 2), [4]]', 'take', '(2,)', '{}'),
+    ('[3, (1, 2), [4]]', 'first', '()', '{}'),
+    ('[3, (1, 2), [4]]', 'last', '()', '{}'),
+    ('[3, (1, 2), [4]]', 'delete', '(0,)', '{}'),
+    ('[3, (1, 2), [4]]', 'replace', '(0, (7, [8]))', '{}'),
+    ('[3, (1, 2)]', 'repeat', '(2,)', '{}'),
+    ('[3, 1, 2]', 'orderBy', '(lambda x: x,)', '{}'),
+    ('[3, 1, 2]', 'select', '(lambda x: (x, [x, {x}]),)', '{}'),
+    ('[3, 1, 2]', 'where', '(lambda x: x > 1,)', '{}'),
+    ('[3, 1, 2]', 'toDict', '(lambda x: x, lambda x: (x, {x}))', '{}'),
+    ('[3, 1, 3]', 'groupBy', '(lambda x: x,)', '{}'),
+    ('[3, 1, 2]', 'selectMany', '(lambda x: (x, (x,)),)', '{}'),
+    ('[3, 1, 2]', 'accumulate', '(lambda a, b: (a, b),)', '{}'),
+    ('[3, 1, 2]', 'sum', '()', '{}'),
+    ('{1, 2}', 'union', '({3},)', '{}'),
+    ('{1, 2}', 'intersect', '({2, 3},)', '{}'),
+    ('{1, 2}', 'add', '(5, 6)', '{}'),
+    ('{1, 2}', 'toList', '()', '{}'),
+    ('{1, 2}', 'len', '()', '{}'),
+    ("'a b'", 'split', '()', '{}'),
+    ("'ab'", 'toCharArray', '()', '{}'),
+    ("'ab'", 'len', '()', '{}'),
+]
+
+
+def _host(src):
+    return eval(src, {'__builtins__': {}})        # STUB_CALLS literals only
+
+
+def run_stub(spec, t2l, s2l, raw=False):
+    """The call through the stub (finalised), or - raw=True - the same function called through the context
+    (context(name, engine, receiver)(...), no finaliser involved), as the stub's documentation describes it."""
+    recv, name, args, kwargs = spec
+    ctx = yq.root().create_child_context()
+    eng = yq.engine(options(t2l, s2l))
+    try:
+        if raw:
+            receiver = _host(recv) if recv is not None else yutils.NO_VALUE
+            return ('v', ctx(name, eng, receiver)(*yutils.convert_input_data(_host(args)),
+                                                  **dict(yutils.convert_input_data(_host(kwargs)))))
+        yi = yaql_interface.YaqlInterface(ctx, eng)
+        if recv is not None:
+            yi = yi.on(_host(recv))
+        return ('v', getattr(yi, name)(*_host(args), **_host(kwargs)))
+    except Exception as e:
+        return ('e', type(e).__name__, str(e)[:160])
+
+
+def judge_stub(spec, t2l, s2l):
+    what = '%s%s%s%s through the YaqlInterface stub with tuples->lists=%s sets->lists=%s' % (
+        'on(%s).' % spec[0] if spec[0] is not None else '', spec[1], spec[2], '' if spec[3] == '{}' else ' **' + spec[3], t2l, s2l)
+    raw = run_stub(spec, t2l, s2l, raw=True)
+    try:
+        bad = []
+        img = P.image(raw[1], t2l, s2l, bad) if raw[0] == 'v' else None
+    except Exception as e:                       # the lazy result fails when forced
+        raw = ('e', type(e).__name__, str(e)[:160])
+    obs = run_stub(spec, t2l, s2l)
+    if raw[0] == 'e':
+        if obs[0] == 'e' and obs[1] == raw[1]:
+            return 'call fails: ' + raw[1], None, obs
+        return 'call fails: ' + raw[1], ('stub-error-differs error=%s' % raw[1], '%s: the plain call raises %s, the stub gave %.100r'
+                                         % (what, raw[1], obs)), obs
+    return ('value' if obs[0] == 'v' else obs[1]), judge(img, bad, obs, t2l, s2l, what), obs
+
+
+def job_stub():
+    res = Result()
+    for spec in STUB_CALLS:
+        for t2l, s2l in COMBOS:
+            case = {'kind': 'stub', 'spec': list(spec), 't2l': t2l, 's2l': s2l}
+            core.CURRENT_CASE[0] = case
+            res.case(('stub', spec, t2l, s2l))
+            label, verdict, obs = judge_stub(spec, t2l, s2l)
+            res.evaluations += 2
+            res.transitions += 1
+            res.nontrivial += 0 if label.startswith('call fails') else 1
+            kind = type(obs[1]).__name__ if obs[0] == 'v' else obs[1]
+            res.outcomes['stub %s -> %s' % ('method' if spec[0] is not None else 'function', kind)] += 1
+            if verdict:
+                res.fail(verdict[0] + ' path=stub', case, verdict[1],
+                         size=len(repr(spec)) + (0 if (t2l, s2l) == COMBOS[0] else 1000))
+    res.sample({'stub': "on({'a': 1}).set('b', {2, 3})", 'options': 'defaults',
+                'observed': repr(run_stub(STUB_CALLS[20], True, False))})
+    return res
+
+
+# ---------------------------------------------------------------------------
+# (5) the engine captures its options (doc/source/extending_yaql.rst: the factory "attaches the options to the
+# constructed engine after which they cannot be changed"): a host that reuses and mutates ONE options dict
+# ---------------------------------------------------------------------------
+def job_captured_options():
+    """The 4 combination engines are created from one dict updated in place; afterwards the dict is cleared and
+    then filled with the opposite flags.  In every phase each engine must finalise by the options it was
+    created with (judged against the image of the raw result, as in (2))."""
+    import yaql
+    res = Result()
+    opts = {}
+    engines = []
+    for t2l, s2l in COMBOS:
+        opts.update(options(t2l, s2l))
+        engines.append(((t2l, s2l), yaql.YaqlFactory().create(opts)))
+    texts = [t for t, _n in expressions(1)] + ["[[1, [2]], set(3), {k => [4]}]"]
+    for phase in ('reused for the next engines', 'cleared', 'opposite flags'):
+        if phase == 'cleared':
+            opts.clear()
+        for (t2l, s2l), eng in engines:
+            if phase == 'opposite flags':
+                opts.clear()
+                opts.update(options(not t2l, not s2l))
+                opts['yaql.convertOutputData'] = False
+            for text in texts:
+                case = {'kind': 'captured', 'text': text, 't2l': t2l, 's2l': s2l, 'phase': phase}
+                core.CURRENT_CASE[0] = case
+                res.case(('captured', text, t2l, s2l, phase))
+                exp = raw_image(text, t2l, s2l)
+                try:
+                    obs = ('v', eng(text).evaluate(context=yq.root().create_child_context()))
+                except Exception as e:
+                    obs = ('e', type(e).__name__, str(e)[:160])
+                res.evaluations += 2
+                res.transitions += 1
+                if exp[0] == 'e':
+                    res.outcomes['captured: evaluation fails'] += 1
+                    continue
+                res.nontrivial += 1
+                verdict = judge(exp[1], exp[2], obs, t2l, s2l, '%s on an engine created with tuples->lists=%s sets->lists=%s, '
+                                'host options dict afterwards %s' % (text, t2l, s2l, phase))
+                res.outcomes['captured %s: %s' % (phase, 'value' if obs[0] == 'v' else obs[1])] += 1
+                if verdict and not verdict[0].startswith('finalize-unhashable'):
+                    res.fail('engine-follows-host-options-dict phase=%s' % phase.split()[0], case, verdict[1], size=len(text))
+                elif verdict:
+                    res.fail(verdict[0], case, verdict[1], size=len(text) + 2000)
+    return res
+
+
 def jobs(tier, seed):
     nd = 16 if tier == 'quick' else 48
     npj = 16 if tier == 'quick' else 48
     return ([('docs-%02d' % k, 'job_documents', (tier, k, nd)) for k in range(nd)]
             + [('expr-%02d' % k, 'job_producers', (tier, k, npj)) for k in range(npj)]
-            + [('seq-%02d' % k, 'job_context_sequence', (k, 8)) for k in range(8)])
+            + [('seq-%02d' % k, 'job_context_sequence', (k, 8)) for k in range(8)]
+            + [('stub', 'job_stub', ()), ('captured-options', 'job_captured_options', ())])
 
 
 def _parse_desc(text):
@@ -328,6 +516,14 @@ def replay(case):
         r = job_context_sequence(0, 1)
         hit = [f for f in r.failures.values()]
         return {'observed': [f.detail for f in hit], 'expected': 'same plain result as a fresh statement', 'ok': not hit}
+    if case['kind'] == 'stub':
+        label, verdict, obs = judge_stub(tuple(case['spec']), t2l, s2l)
+        return {'observed': obs if obs[0] == 'e' else repr(obs[1]), 'expected': 'the finalised image of the plain call result',
+                'ok': verdict is None, 'key': verdict[0] if verdict else None}
+    if case['kind'] == 'captured':
+        r = job_captured_options()
+        hit = [f.detail for k, f in r.failures.items() if k.startswith('engine-follows')]
+        return {'observed': hit, 'expected': 'every engine finalises by the options it was created with', 'ok': not hit}
     if case['kind'] == 'doc':
         desc = _parse_desc(case['doc'])
         img, bad = expect_document(desc, t2l, s2l)
